@@ -102,6 +102,7 @@ PLANS = {
         "rule": NT_RULE + "; C10: a close (socket, context, endpoint, pipe or device end) was issued with operations pending or being issued, and every pending operation and every handle was then checked",
         "budget_s": {"quick": 55, "thorough": 900},
         "scenarios": [
+            S("c10_sfdqueue", 600, 18000),  # socket:// listeners (SP and stream API) closed with descriptors still queued: every descriptor closed once (scenarios/c10c_sfdqueue.cc)
             S("c10_close", 2200, 70000),
             S("c10_epchurn", 1500, 40000),   # endpoints created/closed by other threads while the socket closes (scenarios/c10b_epchurn.cc)
             S("c10_device", 500, 15000),
